@@ -91,6 +91,14 @@ the read buffer and TLS bytes the new process's connection starts with. -/
 def handover (buffered tls : Bytes) : Option (Bytes × Bytes) :=
   (decodeRead (encodeRead buffered tls)).map (fun r => (r.1, r.2.1))
 
+/-- size classes of the byte pool behind `buffer.GetIoBuffer` (mosn.io/pkg, a black box): a buffer asked for with
+exactly such a size has no free byte after the inherited data was written into it. -/
+def poolClass (n : Nat) : Bool := [64, 128, 256, 512, 1024, 2048, 4096, 8192, 16384, 32768, 65536].contains n
+
+/-- the new process keeps the transferred connection: its first `ReadOnce` must find free space in the inherited
+buffer (a read of 0 bytes is taken for EOF by `connection.doRead` and closes the connection). -/
+def adoptedSurvives (buffered : Nat) : Bool := !(inheritedBufferSpare == 0 && poolClass buffered)
+
 /-- type byte of `transferSendType` (`withFD` = transfer read) and what `transferRecvType` makes of it. -/
 def typeByte (withFD : Bool) : Nat := if withFD then typeRead else typeWrite
 def recvIsWrite (b : Nat) : Bool := b == recvTypeWrite
